@@ -82,7 +82,15 @@ def mk_engine(M, kind):
     return NE(var_type="rand") if kind == "numpy" else CE(kind)
 
 
+WORKER = {"pool": None}
+
+
 def spy_runs(M, rec, rng, g, n_nets):
+    from concurrent.futures import ThreadPoolExecutor
+
+    if WORKER["pool"] is None:
+        WORKER["pool"] = ThreadPoolExecutor(max_workers=1)
+        WORKER["pool"].submit(lambda: M.engines.get_current_engine()).result()
     import sym_metanet
     from sym_metanet import engines as E
 
@@ -151,10 +159,16 @@ def spy_runs(M, rec, rng, g, n_nets):
             log = []
             spy = make_spy(M, mk_engine(M, sel), log)
             E.use(spy)
+            in_worker = rng.random() < 0.35  # the step is made by a long-lived worker thread that saw other selections before
             try:
-                built.net.step(**kw)
+                if in_worker:
+                    WORKER["pool"].submit(lambda: built.net.step(**kw)).result()
+                    rec.count("default_runs_in_a_worker_thread")
+                else:
+                    built.net.step(**kw)
             except Exception as e:
-                rec.violation(f"{PROP}:step() with {sel} selected raised {type(e).__name__}", {"desc": desc, "exception": repr(e)[:300]})
+                rec.violation(f"{PROP}:step() with {sel} selected raised {type(e).__name__}" + (" [step made in a worker thread]" if in_worker else ""),
+                              {"desc": desc, "exception": repr(e)[:300]})
                 continue
             rec.count("default_runs")
             used = set(x.split(".")[0] for x in log)
@@ -180,93 +194,111 @@ def selection_histories(M, rec, rng, n_hist):
     from sym_metanet.errors import EngineNotFoundError
 
     NE, CE = drive.engines(M)
+    from concurrent.futures import ThreadPoolExecutor
+
+    # one long-lived worker thread: some operations of a history are carried out there (a GUI / pool
+    # worker that selects or reads the engine), strictly one after the other - the selection is one
+    # per process, whoever makes or reads it
+    worker = ThreadPoolExecutor(max_workers=1)
     for _ in range(n_hist):
         model = E.get_current_engine()
         hist = []
+
+        def apply_op(op):
+            nonlocal model
+            if True:
+                if op == "name":
+                    nm = rng.choice(("numpy", "casadi"))
+                    kw = {}
+                    if nm == "casadi" and rng.random() < 0.5:
+                        kw = {"sym_type": rng.choice(("SX", "MX"))}
+                    if nm == "numpy" and rng.random() < 0.5:
+                        kw = {"var_type": rng.choice(("rand", "randn", "empty"))}
+                    try:
+                        r = E.use(nm, **kw)
+                    except Exception as e:
+                        rec.violation(f"{PROP}:use('{nm}') refused a valid engine name ({type(e).__name__})",
+                                      {"history": hist, "exception": repr(e)[:200]})
+                        return True
+                    ok = (type(r).__module__.endswith("engines." + nm)) and E.get_current_engine() is r and sym_metanet.engine is r and r is not model
+                    if kw.get("sym_type") and r.sym_type.__name__ != kw["sym_type"]:
+                        ok = False
+                    if kw.get("var_type") and getattr(r, "var_type", None) != kw["var_type"]:
+                        ok = False
+                    if nm == "casadi" and not kw and r.sym_type.__name__ != "SX":
+                        ok = False  # documented default symbol type
+                    if not ok:
+                        rec.violation(f"{PROP}:use('{nm}') did not make a new engine of that kind the current one", {"history": hist})
+                    model = r
+                elif op == "instance":
+                    inst = rng.choice((NE(), CE("SX"), CE("MX")))
+                    r = E.use(inst)
+                    if r is not inst or E.get_current_engine() is not inst or sym_metanet.engine is not inst:
+                        rec.violation(f"{PROP}:use(instance) did not make that instance the current engine", {"history": hist})
+                    model = inst
+                elif op == "unknown":
+                    nm = rng.choice(("Numpy", "torch", "", "casadi ", "jax"))
+                    try:
+                        E.use(nm)
+                        rec.violation(f"{PROP}:use(unknown name) did not raise", {"name": nm, "history": hist})
+                    except EngineNotFoundError:
+                        rec.count("unknown_refused")
+                    except Exception as e:
+                        rec.violation(f"{PROP}:use(unknown name) raised {type(e).__name__} instead of the engine-not-found error", {"name": nm})
+                    if E.get_current_engine() is not model or sym_metanet.engine is not model:
+                        rec.violation(f"{PROP}:use(unknown name) changed the selection", {"name": nm, "history": hist,
+                                                                                         "now": repr(E.get_current_engine())})
+                        E.use(model) if model is not None else None
+                elif op == "listing":
+                    # the table of available engines is the caller's to keep and edit: it is information, not
+                    # the selection mechanism's own state
+                    try:
+                        tab = E.get_available_engines()
+                        if not {"numpy", "casadi"} <= set(tab):
+                            rec.violation(f"{PROP}:get_available_engines() does not list the numpy and casadi engines", {"history": hist, "listed": sorted(map(str, tab))})
+                        how = rng.choice(("pop", "clear", "bogus", "edit", "none"))
+                        if how == "pop":
+                            tab.pop(rng.choice(("numpy", "casadi")), None)
+                        elif how == "clear":
+                            tab.clear()
+                        elif how == "bogus":
+                            tab["torch"] = {"module": "sym_metanet.engines.torch", "class": "Engine"}
+                            tab["jax"] = dict(next(iter(tab.values())))
+                        elif how == "edit":
+                            for v_ in tab.values():
+                                if isinstance(v_, dict):
+                                    for k_ in list(v_):
+                                        v_[k_] = "nonsense"
+                        rec.seen("listing_edits", how)
+                    except Exception as e:
+                        rec.violation(f"{PROP}:get_available_engines() raised {type(e).__name__}", {"history": hist})
+                    if E.get_current_engine() is not model or sym_metanet.engine is not model:
+                        rec.violation(f"{PROP}:listing the available engines changed the selection", {"history": hist})
+                elif op == "nonstring":
+                    try:
+                        E.use(rng.choice((object(), 3, None)))
+                    except Exception:
+                        pass
+                    if E.get_current_engine() is not model:
+                        rec.violation(f"{PROP}:use(non-engine object) changed the selection", {"history": hist})
+                        E.use(model)
+                else:
+                    if E.get_current_engine() is not model or sym_metanet.engine is not model:
+                        rec.violation(f"{PROP}:get_current_engine() does not return the selected engine", {"history": hist})
+            return False
+
         for _s in range(rng.randint(3, 12)):
             op = rng.choice(("name", "name", "instance", "unknown", "get", "nonstring", "listing"))
-            hist.append(op)
+            where = "worker thread" if rng.random() < 0.35 else "main thread"
+            hist.append(op if where == "main thread" else op + "@worker")
             rec.count("selection_ops")
             rec.seen("selection_op_kinds", op)
-            if op == "name":
-                nm = rng.choice(("numpy", "casadi"))
-                kw = {}
-                if nm == "casadi" and rng.random() < 0.5:
-                    kw = {"sym_type": rng.choice(("SX", "MX"))}
-                if nm == "numpy" and rng.random() < 0.5:
-                    kw = {"var_type": rng.choice(("rand", "randn", "empty"))}
-                try:
-                    r = E.use(nm, **kw)
-                except Exception as e:
-                    rec.violation(f"{PROP}:use('{nm}') refused a valid engine name ({type(e).__name__})",
-                                  {"history": hist, "exception": repr(e)[:200]})
-                    break
-                ok = (type(r).__module__.endswith("engines." + nm)) and E.get_current_engine() is r and sym_metanet.engine is r and r is not model
-                if kw.get("sym_type") and r.sym_type.__name__ != kw["sym_type"]:
-                    ok = False
-                if kw.get("var_type") and getattr(r, "var_type", None) != kw["var_type"]:
-                    ok = False
-                if nm == "casadi" and not kw and r.sym_type.__name__ != "SX":
-                    ok = False  # documented default symbol type
-                if not ok:
-                    rec.violation(f"{PROP}:use('{nm}') did not make a new engine of that kind the current one", {"history": hist})
-                model = r
-            elif op == "instance":
-                inst = rng.choice((NE(), CE("SX"), CE("MX")))
-                r = E.use(inst)
-                if r is not inst or E.get_current_engine() is not inst or sym_metanet.engine is not inst:
-                    rec.violation(f"{PROP}:use(instance) did not make that instance the current engine", {"history": hist})
-                model = inst
-            elif op == "unknown":
-                nm = rng.choice(("Numpy", "torch", "", "casadi ", "jax"))
-                try:
-                    E.use(nm)
-                    rec.violation(f"{PROP}:use(unknown name) did not raise", {"name": nm, "history": hist})
-                except EngineNotFoundError:
-                    rec.count("unknown_refused")
-                except Exception as e:
-                    rec.violation(f"{PROP}:use(unknown name) raised {type(e).__name__} instead of the engine-not-found error", {"name": nm})
-                if E.get_current_engine() is not model or sym_metanet.engine is not model:
-                    rec.violation(f"{PROP}:use(unknown name) changed the selection", {"name": nm, "history": hist,
-                                                                                     "now": repr(E.get_current_engine())})
-                    E.use(model) if model is not None else None
-            elif op == "listing":
-                # the table of available engines is the caller's to keep and edit: it is information, not
-                # the selection mechanism's own state
-                try:
-                    tab = E.get_available_engines()
-                    if not {"numpy", "casadi"} <= set(tab):
-                        rec.violation(f"{PROP}:get_available_engines() does not list the numpy and casadi engines", {"history": hist, "listed": sorted(map(str, tab))})
-                    how = rng.choice(("pop", "clear", "bogus", "edit", "none"))
-                    if how == "pop":
-                        tab.pop(rng.choice(("numpy", "casadi")), None)
-                    elif how == "clear":
-                        tab.clear()
-                    elif how == "bogus":
-                        tab["torch"] = {"module": "sym_metanet.engines.torch", "class": "Engine"}
-                        tab["jax"] = dict(next(iter(tab.values())))
-                    elif how == "edit":
-                        for v_ in tab.values():
-                            if isinstance(v_, dict):
-                                for k_ in list(v_):
-                                    v_[k_] = "nonsense"
-                    rec.seen("listing_edits", how)
-                except Exception as e:
-                    rec.violation(f"{PROP}:get_available_engines() raised {type(e).__name__}", {"history": hist})
-                if E.get_current_engine() is not model or sym_metanet.engine is not model:
-                    rec.violation(f"{PROP}:listing the available engines changed the selection", {"history": hist})
-            elif op == "nonstring":
-                try:
-                    E.use(rng.choice((object(), 3, None)))
-                except Exception:
-                    pass
-                if E.get_current_engine() is not model:
-                    rec.violation(f"{PROP}:use(non-engine object) changed the selection", {"history": hist})
-                    E.use(model)
-            else:
-                if E.get_current_engine() is not model or sym_metanet.engine is not model:
-                    rec.violation(f"{PROP}:get_current_engine() does not return the selected engine", {"history": hist})
+            rec.seen("selection_threads", where)
+            stop = worker.submit(apply_op, op).result() if where == "worker thread" else apply_op(op)
+            if stop:
+                break
         rec.count("selection_histories")
+    worker.shutdown()
 
 
 def run(M, rec, tier, seed, k, n):
